@@ -32,10 +32,11 @@ G = ξU - F has derivative U in every region and is continuous across every wave
   fan heads and tails — the fan state there IS the neighbouring constant state.
 -/
 import EPV.Lemmas.RiemannIGBridge
+import Mathlib.Topology.Order.IntermediateValue
 
 set_option linter.all false
 
-open EPV EPV.Riem EPV.Model EPV.Spec EPV.Conservation
+open EPV EPV.Riem EPV.Model EPV.Spec EPV.Conservation Set
 
 namespace EPV.C04
 
@@ -97,6 +98,339 @@ theorem scs_conservationFormula (q : Prob) (hq : q.Admissible) (hd : q.Distinct)
   have := key c
   simp only [← scs_solve q hd px xd0 _ t ht hp] at this
   exact this
+
+theorem m_aL (q : Prob) : RiemannIG.soundSpeed q.pl q.rl q.gl = aL q := by rw [m_sound_nf]; rfl
+theorem m_aR (q : Prob) : RiemannIG.soundSpeed q.pr q.rr q.gr = aR q := by rw [m_sound_nf]; rfl
+
+/-! ### shock – contact – rarefaction -/
+
+def scrWaves (q : Prob) (px : ℝ) : List SWave :=
+  [⟨q.ul + (-1) * shockW q.gl q.pl q.rl px, fun _ => starLS q px⟩,
+   ⟨uxS q px, fun _ => starRF q (uxS q px) px⟩,
+   ⟨uxS q px + aR q * fanPi q.gr q.pr px, fanR q⟩,
+   ⟨q.ur + aR q, fun _ => stR q⟩]
+
+theorem scr_vregs (q : Prob) (hq : q.Admissible) (px : ℝ) (hpx : 0 < px) :
+    RiemannIG.vregs (toData q) .SCR px = (scrWaves q px).map SWave.V := by
+  simp only [RiemannIG.vregs, RiemannIG.rx2, m_ux_S q px .SCR (Or.inr rfl), toData_pl, toData_rl, toData_ul, toData_gl,
+    toData_pr, toData_rr, toData_ur, toData_gr,
+    m_shockVel_left, m_ax2 q hq hpx, m_aR, scrWaves, List.map]
+
+theorem scr_solve (q : Prob) (hq : q.Admissible) (hd : q.Distinct) (px xd0 x t : ℝ) (hpx : 0 < px) (ht : 0 < t)
+    (h : (scrWaves q px).Pairwise (fun v w => v.V ≤ w.V)) :
+    solution q .SCR px xd0 x t = spw (fun _ => stL q) (scrWaves q px) ((x - xd0) / t) := by
+  have e1 := m_starL_S q px .SCR (Or.inr rfl)
+  have e2 := m_starR_F q px .SCR (Or.inl rfl)
+  rw [m_ux_S q px .SCR (Or.inr rfl)] at e2
+  simp only [scrWaves, List.pairwise_cons, List.mem_cons, List.not_mem_nil, or_false, forall_eq_or_imp,
+    forall_eq, List.Pairwise.nil, and_true, IsEmpty.forall_iff, implies_true] at h
+  simp only [solution, RiemannIG.solveWith, scr_vregs q hq px hpx, RiemannIG.regStates, RiemannIG.xregs, List.map,
+    RiemannIG.assemble, num_le, decide_eq_true_eq, reg_iff ht, spw, scrWaves, toData_pl, toData_rl, toData_ul, toData_gl,
+    toData_pr, toData_rr, toData_ur, toData_gr]
+  split_ifs <;> simp only [e1, e2, m_fanR q hd, leftState_nf, rightState_nf] <;>
+    first | rfl | (exfalso; linarith)
+
+/-- **C04, pattern SCR** (right rarefaction: `px ≤ pr`) -/
+theorem scr_conservationFormula (q : Prob) (hq : q.Admissible) (hd : q.Distinct) (px : ℝ) (hpx : 0 < px)
+    (hroot : Riem.SCR q px = 0) (hR : px ≤ q.pr) (xd0 a b t : ℝ) (ht : 0 < t)
+    (hw : WavesInside q .SCR px xd0 a b t) :
+    ConservationFormula (solution q .SCR px xd0) xd0 (stL q) (stR q) a b t := by
+  have hr := scr_root hroot
+  have h1 := leftShock_order hq hpx
+  have h2 : uxS q px ≤ uxS q px + aR q * fanPi q.gr q.pr px := by
+    have := mul_pos (aR_pos hq) (fanPi_pos (g := q.gr) hq.2.2.2.1 hpx)
+    linarith
+  have h3 := fanR_order hq hpx hR hr
+  simp only [WavesInside, scr_vregs q hq px hpx, scrWaves, List.map, List.mem_cons, List.not_mem_nil, or_false,
+    forall_eq_or_imp, forall_eq] at hw
+  obtain ⟨⟨ha, -⟩, -, -, -, hb⟩ := hw
+  have hv : SValid ((a - xd0) / t) (fun _ => stL q) (scrWaves q px) ((b - xd0) / t) :=
+    ⟨lt_reg ht ha, sgood_const _ _ _, leftShock_rh hq hpx,
+     h1, sgood_const _ _ _, Contact.rankineHugoniot ⟨rfl, rfl, rfl⟩,
+     h2, sgood_const _ _ _, rankineHugoniot_of_eq (fanR_tail hq hpx hr).symm _,
+     h3, fanR_sgood hq hpx hR hr, rankineHugoniot_of_eq (fanR_head hq) _,
+     reg_lt ht hb, sgood_const _ _ _⟩
+  have hp : (scrWaves q px).Pairwise (fun v w => v.V ≤ w.V) := by
+    simp only [scrWaves, List.pairwise_cons, List.mem_cons, List.not_mem_nil, or_false, forall_eq_or_imp,
+    forall_eq, List.Pairwise.nil, and_true, IsEmpty.forall_iff, implies_true]
+    refine ⟨⟨?_, ?_, ?_⟩, ⟨?_, ?_⟩, ?_⟩ <;> linarith
+  have key := conservationFormula_of_svalid (L := stL q) (R := stR q) ht hv rfl rfl
+  intro c
+  have := key c
+  simp only [← scr_solve q hq hd px xd0 _ t hpx ht hp] at this
+  exact this
+
+/-! ### rarefaction – contact – shock -/
+
+def rcsWaves (q : Prob) (px : ℝ) : List SWave :=
+  [⟨q.ul - aL q, fanL q⟩,
+   ⟨uxF q px - aL q * fanPi q.gl q.pl px, fun _ => starLF q px⟩,
+   ⟨uxF q px, fun _ => starRS q (uxF q px) px⟩,
+   ⟨q.ur + 1 * shockW q.gr q.pr q.rr px, fun _ => stR q⟩]
+
+theorem rcs_vregs (q : Prob) (hq : q.Admissible) (hd : q.Distinct) (px : ℝ) (hpx : 0 < px) :
+    RiemannIG.vregs (toData q) .RCS px = (rcsWaves q px).map SWave.V := by
+  simp only [RiemannIG.vregs, RiemannIG.rx1, m_ux_F q px .RCS (Or.inl rfl), toData_pl, toData_rl, toData_ul, toData_gl,
+    toData_pr, toData_rr, toData_ur, toData_gr,
+    m_shockVel_right q hd, m_ax1 q hq hpx, m_aL, rcsWaves, List.map]
+
+theorem rcs_solve (q : Prob) (hq : q.Admissible) (hd : q.Distinct) (px xd0 x t : ℝ) (hpx : 0 < px) (ht : 0 < t)
+    (h : (rcsWaves q px).Pairwise (fun v w => v.V ≤ w.V)) :
+    solution q .RCS px xd0 x t = spw (fun _ => stL q) (rcsWaves q px) ((x - xd0) / t) := by
+  have e1 := m_starL_F q px .RCS (Or.inl rfl)
+  have e2 := m_starR_S q px .RCS (Or.inr rfl)
+  rw [m_ux_F q px .RCS (Or.inl rfl)] at e2
+  simp only [rcsWaves, List.pairwise_cons, List.mem_cons, List.not_mem_nil, or_false, forall_eq_or_imp,
+    forall_eq, List.Pairwise.nil, and_true, IsEmpty.forall_iff, implies_true] at h
+  simp only [solution, RiemannIG.solveWith, rcs_vregs q hq hd px hpx, RiemannIG.regStates, RiemannIG.xregs, List.map,
+    RiemannIG.assemble, num_le, decide_eq_true_eq, reg_iff ht, spw, rcsWaves, toData_pl, toData_rl, toData_ul, toData_gl,
+    toData_pr, toData_rr, toData_ur, toData_gr]
+  split_ifs <;> simp only [e1, e2, m_fanL q, leftState_nf, rightState_nf] <;>
+    first | rfl | (exfalso; linarith)
+
+/-- **C04, pattern RCS** (left rarefaction: `px ≤ pl`) -/
+theorem rcs_conservationFormula (q : Prob) (hq : q.Admissible) (hd : q.Distinct) (px : ℝ) (hpx : 0 < px)
+    (hroot : Riem.RCS q px = 0) (hL : px ≤ q.pl) (xd0 a b t : ℝ) (ht : 0 < t)
+    (hw : WavesInside q .RCS px xd0 a b t) :
+    ConservationFormula (solution q .RCS px xd0) xd0 (stL q) (stR q) a b t := by
+  have hr := rcs_root hroot
+  have h1 := fanL_order hq hpx hL
+  have h2 : uxF q px - aL q * fanPi q.gl q.pl px ≤ uxF q px := by
+    have := mul_pos (aL_pos hq) (fanPi_pos (g := q.gl) hq.1 hpx)
+    linarith
+  have h3 := rightShock_order hq hpx hr
+  simp only [WavesInside, rcs_vregs q hq hd px hpx, rcsWaves, List.map, List.mem_cons, List.not_mem_nil, or_false,
+    forall_eq_or_imp, forall_eq] at hw
+  obtain ⟨⟨ha, -⟩, -, -, -, hb⟩ := hw
+  have hv : SValid ((a - xd0) / t) (fun _ => stL q) (rcsWaves q px) ((b - xd0) / t) :=
+    ⟨lt_reg ht ha, sgood_const _ _ _, rankineHugoniot_of_eq (fanL_head hq).symm _,
+     h1, fanL_sgood hq hpx hL, rankineHugoniot_of_eq (fanL_tail hq hpx) _,
+     h2, sgood_const _ _ _, Contact.rankineHugoniot ⟨rfl, rfl, rfl⟩,
+     h3, sgood_const _ _ _, rightShock_rh hq hpx hr,
+     reg_lt ht hb, sgood_const _ _ _⟩
+  have hp : (rcsWaves q px).Pairwise (fun v w => v.V ≤ w.V) := by
+    simp only [rcsWaves, List.pairwise_cons, List.mem_cons, List.not_mem_nil, or_false, forall_eq_or_imp,
+    forall_eq, List.Pairwise.nil, and_true, IsEmpty.forall_iff, implies_true]
+    refine ⟨⟨?_, ?_, ?_⟩, ⟨?_, ?_⟩, ?_⟩ <;> linarith
+  have key := conservationFormula_of_svalid (L := stL q) (R := stR q) ht hv rfl rfl
+  intro c
+  have := key c
+  simp only [← rcs_solve q hq hd px xd0 _ t hpx ht hp] at this
+  exact this
+
+/-! ### rarefaction – contact – rarefaction -/
+
+def rcrWaves (q : Prob) (px : ℝ) : List SWave :=
+  [⟨q.ul - aL q, fanL q⟩,
+   ⟨uxF q px - aL q * fanPi q.gl q.pl px, fun _ => starLF q px⟩,
+   ⟨uxF q px, fun _ => starRF q (uxF q px) px⟩,
+   ⟨uxF q px + aR q * fanPi q.gr q.pr px, fanR q⟩,
+   ⟨q.ur + aR q, fun _ => stR q⟩]
+
+theorem rcr_vregs (q : Prob) (hq : q.Admissible) (px : ℝ) (hpx : 0 < px) :
+    RiemannIG.vregs (toData q) .RCR px = (rcrWaves q px).map SWave.V := by
+  simp only [RiemannIG.vregs, RiemannIG.rx1, RiemannIG.rx2, m_ux_F q px .RCR (Or.inr rfl), toData_pl, toData_rl, toData_ul, toData_gl,
+    toData_pr, toData_rr, toData_ur, toData_gr,
+    m_ax1 q hq hpx, m_ax2 q hq hpx, m_aL, m_aR, rcrWaves, List.map]
+
+theorem rcr_solve (q : Prob) (hq : q.Admissible) (hd : q.Distinct) (px xd0 x t : ℝ) (hpx : 0 < px) (ht : 0 < t)
+    (h : (rcrWaves q px).Pairwise (fun v w => v.V ≤ w.V)) :
+    solution q .RCR px xd0 x t = spw (fun _ => stL q) (rcrWaves q px) ((x - xd0) / t) := by
+  have e1 := m_starL_F q px .RCR (Or.inr rfl)
+  have e2 := m_starR_F q px .RCR (Or.inr rfl)
+  rw [m_ux_F q px .RCR (Or.inr rfl)] at e2
+  simp only [rcrWaves, List.pairwise_cons, List.mem_cons, List.not_mem_nil, or_false, forall_eq_or_imp,
+    forall_eq, List.Pairwise.nil, and_true, IsEmpty.forall_iff, implies_true] at h
+  simp only [solution, RiemannIG.solveWith, rcr_vregs q hq px hpx, RiemannIG.regStates, RiemannIG.xregs, List.map,
+    RiemannIG.assemble, num_le, decide_eq_true_eq, reg_iff ht, spw, rcrWaves, toData_pl, toData_rl, toData_ul, toData_gl,
+    toData_pr, toData_rr, toData_ur, toData_gr]
+  split_ifs <;> simp only [e1, e2, m_fanL q, m_fanR q hd, leftState_nf, rightState_nf] <;>
+    first | rfl | (exfalso; linarith)
+
+/-- **C04, pattern RCR** (`px ≤ pl`, `px ≤ pr`) -/
+theorem rcr_conservationFormula (q : Prob) (hq : q.Admissible) (hd : q.Distinct) (px : ℝ) (hpx : 0 < px)
+    (hroot : Riem.RCR q px = 0) (hL : px ≤ q.pl) (hR : px ≤ q.pr) (xd0 a b t : ℝ) (ht : 0 < t)
+    (hw : WavesInside q .RCR px xd0 a b t) :
+    ConservationFormula (solution q .RCR px xd0) xd0 (stL q) (stR q) a b t := by
+  have hr := rcr_root hroot
+  have h1 := fanL_order hq hpx hL
+  have h2 : uxF q px - aL q * fanPi q.gl q.pl px ≤ uxF q px := by
+    have := mul_pos (aL_pos hq) (fanPi_pos (g := q.gl) hq.1 hpx)
+    linarith
+  have h3 : uxF q px ≤ uxF q px + aR q * fanPi q.gr q.pr px := by
+    have := mul_pos (aR_pos hq) (fanPi_pos (g := q.gr) hq.2.2.2.1 hpx)
+    linarith
+  have h4 := fanR_order hq hpx hR hr
+  simp only [WavesInside, rcr_vregs q hq px hpx, rcrWaves, List.map, List.mem_cons, List.not_mem_nil, or_false,
+    forall_eq_or_imp, forall_eq] at hw
+  obtain ⟨⟨ha, -⟩, -, -, -, -, hb⟩ := hw
+  have hv : SValid ((a - xd0) / t) (fun _ => stL q) (rcrWaves q px) ((b - xd0) / t) :=
+    ⟨lt_reg ht ha, sgood_const _ _ _, rankineHugoniot_of_eq (fanL_head hq).symm _,
+     h1, fanL_sgood hq hpx hL, rankineHugoniot_of_eq (fanL_tail hq hpx) _,
+     h2, sgood_const _ _ _, Contact.rankineHugoniot ⟨rfl, rfl, rfl⟩,
+     h3, sgood_const _ _ _, rankineHugoniot_of_eq (fanR_tail hq hpx hr).symm _,
+     h4, fanR_sgood hq hpx hR hr, rankineHugoniot_of_eq (fanR_head hq) _,
+     reg_lt ht hb, sgood_const _ _ _⟩
+  have hp : (rcrWaves q px).Pairwise (fun v w => v.V ≤ w.V) := by
+    simp only [rcrWaves, List.pairwise_cons, List.mem_cons, List.not_mem_nil, or_false, forall_eq_or_imp,
+    forall_eq, List.Pairwise.nil, and_true, IsEmpty.forall_iff, implies_true]
+    refine ⟨⟨?_, ?_, ?_, ?_⟩, ⟨?_, ?_, ?_⟩, ⟨?_, ?_⟩, ?_⟩ <;> linarith
+  have key := conservationFormula_of_svalid (L := stL q) (R := stR q) ht hv rfl rfl
+  intro c
+  have := key c
+  simp only [← rcr_solve q hq hd px xd0 _ t hpx ht hp] at this
+  exact this
+
+/-! ### The literal form of C04: integral of the initial data plus t × (flux difference) -/
+
+/-- **C04, SCS**: for every interval `[a, b] ∋ xd0` that contains all waves at time `t`, the integrals
+of ρ, ρu, ρ(e + u²/2) of the returned solution equal those of the initial data plus
+`t (F(U_L) - F(U_R))`. -/
+theorem scs_conservation (q : Prob) (hq : q.Admissible) (hd : q.Distinct) (px : ℝ) (hpx : 0 < px)
+    (hroot : Riem.SCS q px = 0) (xd0 a b t : ℝ) (ht : 0 < t) (ha : a ≤ xd0) (hb : xd0 ≤ b)
+    (hw : WavesInside q .SCS px xd0 a b t) :
+    IntegralConservation (solution q .SCS px xd0) xd0 (stL q) (stR q) a b t :=
+  IntegralConservation.of_formula ha hb (scs_conservationFormula q hq hd px hpx hroot xd0 a b t ht hw)
+
+/-- **C04, SCR** -/
+theorem scr_conservation (q : Prob) (hq : q.Admissible) (hd : q.Distinct) (px : ℝ) (hpx : 0 < px)
+    (hroot : Riem.SCR q px = 0) (hR : px ≤ q.pr) (xd0 a b t : ℝ) (ht : 0 < t) (ha : a ≤ xd0) (hb : xd0 ≤ b)
+    (hw : WavesInside q .SCR px xd0 a b t) :
+    IntegralConservation (solution q .SCR px xd0) xd0 (stL q) (stR q) a b t :=
+  IntegralConservation.of_formula ha hb (scr_conservationFormula q hq hd px hpx hroot hR xd0 a b t ht hw)
+
+/-- **C04, RCS** -/
+theorem rcs_conservation (q : Prob) (hq : q.Admissible) (hd : q.Distinct) (px : ℝ) (hpx : 0 < px)
+    (hroot : Riem.RCS q px = 0) (hL : px ≤ q.pl) (xd0 a b t : ℝ) (ht : 0 < t) (ha : a ≤ xd0) (hb : xd0 ≤ b)
+    (hw : WavesInside q .RCS px xd0 a b t) :
+    IntegralConservation (solution q .RCS px xd0) xd0 (stL q) (stR q) a b t :=
+  IntegralConservation.of_formula ha hb (rcs_conservationFormula q hq hd px hpx hroot hL xd0 a b t ht hw)
+
+/-- **C04, RCR** -/
+theorem rcr_conservation (q : Prob) (hq : q.Admissible) (hd : q.Distinct) (px : ℝ) (hpx : 0 < px)
+    (hroot : Riem.RCR q px = 0) (hL : px ≤ q.pl) (hR : px ≤ q.pr) (xd0 a b t : ℝ) (ht : 0 < t)
+    (ha : a ≤ xd0) (hb : xd0 ≤ b) (hw : WavesInside q .RCR px xd0 a b t) :
+    IntegralConservation (solution q .RCR px xd0) xd0 (stL q) (stR q) a b t :=
+  IntegralConservation.of_formula ha hb (rcr_conservationFormula q hq hd px hpx hroot hL hR xd0 a b t ht hw)
+
+/-- with the driver's own classification: `RiemannIG.solve` is `solveWith` of the classified pattern -/
+theorem solve_eq (q : Prob) (px xd0 x t : ℝ) :
+    toSpec (Riem.solve q px xd0 x t).2.2 = solution q (RiemannIG.classify (toData q)) px xd0 x t := rfl
+
+/-! ### Non-vacuity
+
+The hypotheses on the data, the star pressure and the pattern are satisfiable: at the solver's
+default data (Sod's shock tube, pattern RCS) by the intermediate value theorem, and for each of
+the four patterns at data with a rational star state.  The hypotheses on the interval are
+satisfiable for every problem (`exists_wavesInside`). -/
+
+/-- every finite list of speeds fits into some interval around the membrane -/
+theorem exists_interval (l : List ℝ) (xd0 t : ℝ) :
+    ∃ a b, a ≤ xd0 ∧ xd0 ≤ b ∧ ∀ V ∈ l, a < xd0 + t * V ∧ xd0 + t * V < b := by
+  induction l with
+  | nil => exact ⟨xd0, xd0, le_rfl, le_rfl, by simp⟩
+  | cons v l ih =>
+    obtain ⟨a, b, ha, hb, h⟩ := ih
+    refine ⟨min a (xd0 + t * v - 1), max b (xd0 + t * v + 1), (min_le_left _ _).trans ha,
+      hb.trans (le_max_left _ _), ?_⟩
+    intro V hV
+    rcases List.mem_cons.mp hV with rfl | hV
+    · exact ⟨lt_of_le_of_lt (min_le_right _ _) (by linarith), lt_of_lt_of_le (by linarith) (le_max_right _ _)⟩
+    · exact ⟨lt_of_le_of_lt (min_le_left _ _) (h V hV).1, lt_of_lt_of_le (h V hV).2 (le_max_left _ _)⟩
+
+theorem exists_wavesInside (q : Prob) (pat : RiemannIG.Pattern) (px xd0 t : ℝ) :
+    ∃ a b, a ≤ xd0 ∧ xd0 ≤ b ∧ WavesInside q pat px xd0 a b t :=
+  exists_interval _ xd0 t
+
+theorem cube_root_eighth : ((1 / 8 : ℝ) / 1) ^ (((3 : ℝ) - 1) / 2 / 3) = 1 / 2 := by
+  rw [show ((1 / 8 : ℝ) / 1) = (1 / 2) ^ (3 : ℕ) by norm_num,
+    show ((3 : ℝ) - 1) / 2 / 3 = ((3 : ℕ) : ℝ)⁻¹ by norm_num,
+    Real.pow_rpow_inv_natCast (by norm_num) (by norm_num)]
+
+def qSCS : Prob := { pl := 1, rl := 5/6, ul := 17/12, gl := 7/5, pr := 1, rr := 5/6, ur := -(17/12), gr := 7/5 }
+def qRCS : Prob := { pl := 1, rl := 3, ul := 0, gl := 3, pr := 1/12, rr := 3/4, ur := 5/12, gr := 3 }
+def qSCR : Prob := { pl := 1/12, rl := 3/4, ul := -(5/12), gl := 3, pr := 1, rr := 3, ur := 0, gr := 3 }
+def qRCR : Prob := { pl := 1, rl := 3, ul := -(1/2), gl := 3, pr := 1, rr := 3, ur := 1/2, gr := 3 }
+
+theorem sqrt_quarter : Real.sqrt (1 / 4) = 1 / 2 := by
+  rw [Real.sqrt_eq_iff_mul_self_eq_of_pos (by norm_num)]; norm_num
+theorem sqrt_four : Real.sqrt 4 = 2 := by
+  rw [Real.sqrt_eq_iff_mul_self_eq_of_pos (by norm_num)]; norm_num
+
+/-- non-vacuity, SCS: two equal gases colliding (γ = 7/5), px = 23/6 -/
+theorem qSCS_ok : qSCS.Admissible ∧ qSCS.Distinct ∧ (0 : ℝ) < 23 / 6 ∧ Riem.SCS qSCS (23 / 6) = 0 := by
+  refine ⟨by unfold Prob.Admissible qSCS; norm_num, by unfold Prob.Distinct qSCS; norm_num, by norm_num, ?_⟩
+  have e : (2 : ℝ) / (7 / 5 + 1) / (5 / 6) / (23 / 6 + (7 / 5 - 1) / (7 / 5 + 1) * 1) = 1 / 4 := by norm_num
+  simp only [SCS_eq, shock_eq, qSCS, e, sqrt_quarter]
+  norm_num
+
+/-- non-vacuity, RCS (γ = 3 on both sides, so that the star state is rational), px = 1/8 -/
+theorem qRCS_ok : qRCS.Admissible ∧ qRCS.Distinct ∧ (0 : ℝ) < 1 / 8 ∧ Riem.RCS qRCS (1 / 8) = 0 ∧ 1 / 8 ≤ qRCS.pl := by
+  refine ⟨by unfold Prob.Admissible qRCS; norm_num, by unfold Prob.Distinct qRCS; norm_num, by norm_num, ?_,
+    by unfold qRCS; norm_num⟩
+  have e : (2 : ℝ) / (3 + 1) / (3 / 4) / (1 / 8 + (3 - 1) / (3 + 1) * (1 / 12)) = 4 := by norm_num
+  have e2 : (3 : ℝ) * 1 / 3 = 1 := by norm_num
+  simp only [RCS_eq, shock_eq, rare_eq, qRCS, e, sqrt_four, e2, Real.sqrt_one, cube_root_eighth]
+  norm_num
+
+/-- non-vacuity, SCR: the mirror image -/
+theorem qSCR_ok : qSCR.Admissible ∧ qSCR.Distinct ∧ (0 : ℝ) < 1 / 8 ∧ Riem.SCR qSCR (1 / 8) = 0 ∧ 1 / 8 ≤ qSCR.pr := by
+  refine ⟨by unfold Prob.Admissible qSCR; norm_num, by unfold Prob.Distinct qSCR; norm_num, by norm_num, ?_,
+    by unfold qSCR; norm_num⟩
+  have e : (2 : ℝ) / (3 + 1) / (3 / 4) / (1 / 8 + (3 - 1) / (3 + 1) * (1 / 12)) = 4 := by norm_num
+  have e2 : (3 : ℝ) * 1 / 3 = 1 := by norm_num
+  simp only [SCR_eq, shock_eq, rare_eq, qSCR, e, sqrt_four, e2, Real.sqrt_one, cube_root_eighth]
+  norm_num
+
+/-- non-vacuity, RCR: two equal gases receding -/
+theorem qRCR_ok : qRCR.Admissible ∧ qRCR.Distinct ∧ (0 : ℝ) < 1 / 8 ∧ Riem.RCR qRCR (1 / 8) = 0 ∧
+    1 / 8 ≤ qRCR.pl ∧ 1 / 8 ≤ qRCR.pr := by
+  refine ⟨by unfold Prob.Admissible qRCR; norm_num, by unfold Prob.Distinct qRCR; norm_num, by norm_num, ?_,
+    by unfold qRCR; norm_num, by unfold qRCR; norm_num⟩
+  have e2 : (3 : ℝ) * 1 / 3 = 1 := by norm_num
+  simp only [RCR_eq, rare_eq, qRCR, e2, Real.sqrt_one, cube_root_eighth]
+  norm_num
+
+/-- at the solver's DEFAULT data (Sod's shock tube) the traced `RCS_call` has a root in
+`[pr, pl] = [1/10, 1]` (intermediate value theorem): the hypotheses of `rcs_conservation` are
+satisfiable at the defaults -/
+theorem sod_root : ∃ px : ℝ, 0 < px ∧ px ≤ sod.pl ∧ Riem.RCS sod px = 0 := by
+  have hc : ContinuousOn (fun p => Riem.RCS sod p) (Icc (1 / 10) 1) := by
+    simp only [RCS_eq, shock_eq, rare_eq, sod]
+    intro p hp
+    have hp0 : (0 : ℝ) < p := by linarith [hp.1]
+    apply ContinuousAt.continuousWithinAt
+    have h1 : p + (7 / 5 - 1) / (7 / 5 + 1) * (1 / 10) ≠ 0 := by positivity
+    have h2 : ContinuousAt (fun p : ℝ => (p / 1) ^ (((7 : ℝ) / 5 - 1) / 2 / (7 / 5))) p :=
+      (continuousAt_id.div_const 1).rpow_const (Or.inr (by norm_num))
+    fun_prop (disch := assumption)
+  have h0 : Riem.RCS sod (1 / 10) < 0 := by
+    simp only [RCS_eq, shock_eq, rare_eq, sod]
+    have h : ((1 / 10 : ℝ) / 1) ^ (((7 : ℝ) / 5 - 1) / 2 / (7 / 5)) < 1 :=
+      Real.rpow_lt_one (by norm_num) (by norm_num) (by norm_num)
+    have hs : 0 < Real.sqrt (7 / 5 * 1 / 1) := Real.sqrt_pos.mpr (by norm_num)
+    have : 0 < 2 * Real.sqrt (7 / 5 * 1 / 1) / (7 / 5 - 1) * (1 - ((1 / 10 : ℝ) / 1) ^ (((7 : ℝ) / 5 - 1) / 2 / (7 / 5))) := by
+      apply mul_pos
+      · positivity
+      · linarith
+    norm_num at this ⊢
+    linarith
+  have h1 : 0 < Riem.RCS sod 1 := by
+    simp only [RCS_eq, shock_eq, rare_eq, sod]
+    have hs : 0 < Real.sqrt (2 / (7 / 5 + 1) / (1 / 8) / (1 + (7 / 5 - 1) / (7 / 5 + 1) * (1 / 10))) :=
+      Real.sqrt_pos.mpr (by norm_num)
+    simp only [div_one, Real.one_rpow, sub_self, mul_zero, zero_add, add_zero, sub_zero]
+    nlinarith
+  obtain ⟨px, hpx, hroot⟩ := intermediate_value_Icc (by norm_num : (1 / 10 : ℝ) ≤ 1) hc
+    (show (0 : ℝ) ∈ Icc (Riem.RCS sod (1 / 10)) (Riem.RCS sod 1) from ⟨h0.le, h1.le⟩)
+  exact ⟨px, by linarith [hpx.1], by simpa [sod] using hpx.2, hroot⟩
+
+/-- the default problem (Sod), end to end: some star pressure, some interval, and the conclusion -/
+example : ∃ px a b : ℝ, IntegralConservation (solution sod .RCS px (1 / 2)) (1 / 2) (stL sod) (stR sod) a b (1 / 4) := by
+  obtain ⟨px, hpx, hL, hroot⟩ := sod_root
+  obtain ⟨a, b, ha, hb, hw⟩ := exists_wavesInside sod .RCS px (1 / 2) (1 / 4)
+  exact ⟨px, a, b, rcs_conservation sod sod_admissible.1 sod_admissible.2 px hpx hroot hL (1 / 2) a b (1 / 4)
+    (by norm_num) ha hb hw⟩
 
 end
 
